@@ -28,19 +28,20 @@ def is_hex(c):
 
 
 def esc_char(r, c, nxt, level):
-    """One code point inside an identifier or string, escaped in a randomly chosen form."""
+    """One code point inside an identifier or string, escaped in a randomly chosen form.  A hex
+    escape may drop its terminating whitespace only when the next character of the SAME
+    identifier/string is neither a hex digit nor whitespace (at the end of the identifier the
+    terminator is kept: following whitespace would otherwise be swallowed as the terminator)."""
     o = ord(c)
     forms = []
     if not is_hex(c) and c not in '\r\n\f' and o != 0:
         forms.append('\\' + c)
     forms.append(f'\\{o:x} ')
-    forms.append(f'\\{o:06x}' + (' ' if r.random() < 0.5 else ''))
+    forms.append(f'\\{o:06x} ')
+    forms.append(f'\\{o:X}' + r.choice([' ', '\t', '\n', '\r\n', '\f']))
     if nxt is not None and not is_hex(nxt) and nxt not in ' \t\r\n\f':
         forms.append(f'\\{o:x}')
-    if 'A' <= f'{o:x}'.upper() and r.random() < 0.3:
-        forms.append(f'\\{o:X} ')
-    if nxt is None:
-        forms.append(f'\\{o:x}')
+        forms.append(f'\\{o:06x}')
     return r.choice(forms)
 
 
@@ -92,8 +93,13 @@ def render(items, r=None, level=0):
     """level 0 = canonical spelling (no optional whitespace, one space for descendant, minimal
     escapes, double quotes, lower case); level 1 = random spelling."""
     out = []
+    bare = False      # the previous value was rendered as a bare identifier
     for it in items:
         k = it[0]
+        if k == 'flaggap':
+            # between an attribute value and its i/s flag: whitespace is mandatory after a bare identifier
+            out.append((r.choice(DESCS) if bare or r.random() < 0.5 else r.choice(GAPS)) if level else '')
+            continue
         if k == 'gap':
             out.append(r.choice(GAPS) if level else '')
         elif k == 'desc':
@@ -108,6 +114,7 @@ def render(items, r=None, level=0):
             if valid_ident(v):
                 forms.append('id')
             f = r.choice(forms) if level else '"'
+            bare = f == 'id'
             out.append(render_ident(r, v, level) if f == 'id' else render_string(r, v, f, level))
         elif k == 'kw':
             t = it[1]
@@ -147,7 +154,7 @@ def g_attr(r):
     if r.random() < 0.75:
         items += [('gap',), ('p', r.choice(['=', '~=', '|=', '^=', '$=', '*=', '!='])), ('gap',), ('val', r.choice(VALS))]
         if r.random() < 0.3:
-            items += [('desc',) if r.random() < 0.5 else ('gap',), ('kw', r.choice(['i', 's']))]
+            items += [('flaggap',), ('kw', r.choice(['i', 's']))]
     items += [('gap',), ('p', ']')]
     return items
 
